@@ -127,4 +127,69 @@ def containsAngleI (τ ε : Rat) (i j : I) : Bool :=
 def addAngle (τ : Rat) (i : I) (k : Rat) : Res I := mkAngle τ (i.lo + k) (i.hi + k)
 def subAngle (τ : Rat) (i : I) (k : Rat) : Res I := mkAngle τ (i.lo - k) (i.hi - k)
 
+/-! ### Setters of `AngleInterval` on a constructed object, and histories (operation sequences) -/
+
+/-- `AngleInterval.start` setter on a constructed angle interval (util.py `AngleInterval.start.setter`):
+    `assert is_valid_orientation(start)`, then `assert start <= self._end`. The length is NOT re-checked. -/
+def setStartAngle (τ : Rat) (i : I) (a : Rat) : Res I :=
+  if ¬ validOrientation τ a then .error .assert else
+  if a ≤ i.hi then .ok ⟨a, i.hi⟩ else .error .assert
+
+/-- `AngleInterval.end` setter: `assert is_valid_orientation(end)`, then `assert end >= self._start`. -/
+def setEndAngle (τ : Rat) (i : I) (b : Rat) : Res I :=
+  if ¬ validOrientation τ b then .error .assert else
+  if i.lo ≤ b then .ok ⟨i.lo, b⟩ else .error .assert
+
+/-- One step of a history on a plain `Interval` object: the two property setters mutate the object, the
+    arithmetic dunders / `round` / `intersection` produce a new object that the history continues with
+    (`intersection` returning `None` keeps the current object). `round n`: Python's `round(·, n)`
+    (`None` and `0` round alike) is the parameter `rnd n`. -/
+inductive Op where
+  | setStart (x : Rat) | setEnd (x : Rat)
+  | add (k : Rat) | sub (k : Rat) | mul (k : Rat) | div (k : Rat)
+  | round (n : Int) | inter (j : I)
+  deriving Repr
+
+def step (rnd : Int → Rat → Rat) (i : I) : Op → Res I
+  | .setStart x => setStart i x
+  | .setEnd x => setEnd i x
+  | .add k => add i k
+  | .sub k => sub i k
+  | .mul k => mul i k
+  | .div k => div i k
+  | .round n => round (rnd n) i
+  | .inter j => (intersection i j).map (fun o => o.getD i)
+
+/-- State after a step: a raising step (failed assertion, division by zero) leaves the object as it was. -/
+def after (i : I) (r : Res I) : I := match r with | .ok j => j | .error _ => i
+
+/-- A history: the result of every step, each run on the state the previous steps left. -/
+def runOps (rnd : Int → Rat → Rat) : I → List Op → List (Res I)
+  | _, [] => []
+  | i, op :: ops => step rnd i op :: runOps rnd (after i (step rnd i op)) ops
+
+/-- The object at the end of a history. -/
+def finalOps (rnd : Int → Rat → Rat) : I → List Op → I
+  | i, [] => i
+  | i, op :: ops => finalOps rnd (after i (step rnd i op)) ops
+
+/-- One step of a history on an `AngleInterval` object. -/
+inductive OpA where
+  | setStart (x : Rat) | setEnd (x : Rat) | add (k : Rat) | sub (k : Rat)
+  deriving Repr
+
+def stepA (τ : Rat) (i : I) : OpA → Res I
+  | .setStart x => setStartAngle τ i x
+  | .setEnd x => setEndAngle τ i x
+  | .add k => addAngle τ i k
+  | .sub k => subAngle τ i k
+
+def runOpsA (τ : Rat) : I → List OpA → List (Res I)
+  | _, [] => []
+  | i, op :: ops => stepA τ i op :: runOpsA τ (after i (stepA τ i op)) ops
+
+def finalOpsA (τ : Rat) : I → List OpA → I
+  | i, [] => i
+  | i, op :: ops => finalOpsA τ (after i (stepA τ i op)) ops
+
 end CR.Iv
